@@ -32,7 +32,7 @@ func init() {
 		Run: c10Run,
 		Floors: func(m *Merged, tier string) []string {
 			var u []string
-			for _, c := range []string{"custom_all_const_args_reached", "custom_all_const_args_unreached", "failing_const_reached", "failing_const_unreached", "stateless_folded_at_compile_time", "undeclared_runtime_calls", "vars_legitimately_folded_away", "zero_arg_ops", "derived_config_compilations"} {
+			for _, c := range []string{"custom_all_const_args_reached", "custom_all_const_args_unreached", "failing_const_reached", "failing_const_unreached", "stateless_folded_at_compile_time", "undeclared_runtime_calls", "vars_legitimately_folded_away", "zero_arg_ops", "derived_config_compilations", "duplicate_operand_evaluations"} {
 				if m.C(c) < 100 {
 					u = append(u, fmt.Sprintf("%s = %d (<100)", c, m.C(c)))
 				}
@@ -292,6 +292,10 @@ func c10Run(w *W, idx int) {
 		c10Derived(w, r)
 		return
 	}
+	if idx%50 == 48 {
+		c10Duplicates(w, r)
+		return
+	}
 	var tree *Node
 	stratum := "shapes"
 	switch idx % 4 {
@@ -525,4 +529,86 @@ func insideDecidedAndOr(tree, target *Node, declared map[string]bool, folding bo
 		}
 	}
 	return false
+}
+
+// c10Duplicates: an undeclared operator runs each time its sub-expression is evaluated - also when the same sub-expression
+// occurs several times among the operands of nested and/or nodes that ReduceNesting merges. The number of calls per
+// evaluation is the same under every option subset (the binding lets every operand be evaluated).
+func c10Duplicates(w *W, r *rand.Rand) {
+	isOr := r.Intn(2) == 0
+	name := []string{"and", "&&"}[r.Intn(2)]
+	if isOr {
+		name = []string{"or", "||"}[r.Intn(2)]
+	}
+	// the repeated operand: an undeclared operator below a built-in (or stateless) root; non-deciding value
+	reading := func() *Node {
+		call := Op("ci", TInt, Var("i0", TInt), Lit(int64(3))) // i0 - 3
+		var t *Node
+		switch r.Intn(3) {
+		case 0:
+			t = Op(">", TBool, call, Lit(int64(0)))
+		case 1:
+			t = Op("spos", TBool, call)
+		default:
+			t = Op("not", TBool, Op("<", TBool, call.Clone(), Lit(int64(1))))
+		}
+		if isOr {
+			return Op("not", TBool, t)
+		}
+		return t
+	}
+	dup := reading()
+	leaf := func() *Node { return Var(fmt.Sprintf("b%d", r.Intn(3)), TBool) }
+	group := func() *Node {
+		n := 2 + r.Intn(2)
+		ch := make([]*Node, n)
+		for i := range ch {
+			ch[i] = leaf()
+		}
+		ch[r.Intn(n)] = dup.Clone()
+		return Op(name, TBool, ch...)
+	}
+	var tree *Node
+	switch r.Intn(3) {
+	case 0:
+		tree = Op(name, TBool, group(), group())
+	case 1:
+		tree = Op(name, TBool, group(), leaf(), Op(name, TBool, group(), dup.Clone()))
+	default:
+		tree = Op(name, TBool, dup.Clone(), group(), group())
+	}
+	occurrences := 0
+	tree.Walk(func(n *Node) {
+		if n.Kind == KOp && n.Name == "ci" {
+			occurrences++
+		}
+	})
+	vals := map[string]interface{}{"i0": int64(10), "b0": !isOr, "b1": !isOr, "b2": !isOr}
+	src := tree.Prefix()
+	w.Inc("programs")
+	w.Inc("programs_duplicates")
+	for _, o := range allOptSets() {
+		cfg := cfgFor(tree, o, false)
+		cfg.Stateless = stdStateless
+		v, ok := compileVariant(w, tree, src, cfg, "duplicates")
+		if !ok {
+			continue
+		}
+		for _, kind := range []CallKind{CallEval, CallTryEval} {
+			rec := &Recorder{}
+			out, _ := callExpr(v.E, kind, fetcherFor(Binding{Vals: vals}, rec), nil, false)
+			w.Evals++
+			calls := 0
+			for _, e := range rec.Effects {
+				if !e.Get && e.Name == "ci" {
+					calls++
+				}
+			}
+			w.Inc("duplicate_operand_evaluations")
+			if out.Panic != nil || out.Err != nil || out.V != !isOr || calls != occurrences {
+				w.Fail("undeclared-operator-call-dropped", "%s: result %s, the undeclared operator ci ran %d time(s) in one evaluation; it occurs %d times and every operand is evaluated under this binding\nsource: %s\nconfig: %s\ndump: %s", []string{"Eval", "TryEval"}[kind], out, calls, occurrences, src, v.Cfg, oneLine(v.Dump))
+				return
+			}
+		}
+	}
 }
